@@ -70,6 +70,14 @@ theorem count_ignores_unreadable (w : Who) (db : DB) (col : Nat) : count w db co
   unfold count
   rw [scan_ignores_unreadable]
 
+theorem commitsByCid_ignores_unreadable (w : Who) (db : DB) (l : String) :
+    commitsByCid w db l = commitsByCid w (restrict w db) l := by
+  unfold commitsByCid restrict
+  simp only [List.filter_filter]
+  congr 2
+  funext d
+  cases canRead w d <;> simp
+
 theorem commits_ignores_unreadable (w : Who) (db : DB) : commits w db = commits w (restrict w db) := by
   unfold commits
   have : restrict w db = db.filter (canRead w) := rfl
